@@ -641,7 +641,7 @@ func (h *hist) get(b *mblock, api int) (divs []div) {
 		}
 		switch {
 		case !found:
-			divs = append(divs, div{"get/error-for-queued-block", fmt.Sprintf("%s: %v for a block that is stored and still queued: %s", apiNames[api], err, b.desc()), b})
+			divs = append(divs, div{"get/error-no-index-record/" + st, fmt.Sprintf("%s: %v for a stored block that has no index record (still queued, or its record was lost): %s", apiNames[api], err, b.desc()), b})
 		case h.outOfRetention(idx):
 			h.c.inc("get_absent_out_of_retention")
 		default:
@@ -1126,6 +1126,17 @@ func (h *hist) finalize(explain map[*mblock]bool, knownClass, knownWhat string) 
 	h.dead = true
 }
 
+// Known defect F1 (listed in /verif/known/C16.json): LoadBlockIndex `continue`s over a record whose
+// INVALID flag is set before it reaches `db.maxidxfilepos += 136`. After a reopen of an index that
+// holds K invalid records, (a) every valid record behind an invalid one has an ipos that is 136*k
+// too small, so BlockTrusted/BlockInvalid write their flag into an earlier record, and (b) the
+// append position is 136*K short, so the next record overwrites the one in slot "number of valid
+// records". Proposed fix: add `db.maxidxfilepos += 136` before that `continue`.
+// A history is attributed to these classes only if the index parsed at the preceding close really has
+// a valid record behind an invalid one, the activating operation (append / flag update of a block
+// with an invalid record before it) was performed, and the divergence concerns exactly the block(s)
+// the defect predicts; everything else keeps its own class. Invalid records at the very end of the
+// file only cause dead records to be overwritten: that is treated as correct and judged strictly.
 const (
 	classAppend = "reopen-after-invalid-record/append-overwrites-live-record"
 	classFlag   = "reopen-after-invalid-record/flag-update-hits-another-record"
@@ -1417,7 +1428,11 @@ func runHistory(c *ctx, root *vlib.Rand, hi int, ops, nread, scale int, profile 
 		h.family = "bugshape"
 	}
 	h.height = uint32(r.Intn(900000))
-	c.jrnl("history %d seed=%d profile=%s family=%s opts=%+v", hi, h.seed, profile, h.family, h.opts)
+	if profile == "normal" {
+		c.jrnl("history %d seed=%d profile=%s family=%s opts=%+v", hi, h.seed, profile, h.family, h.opts)
+	} else {
+		c.jrnl("history %d seed=%d profile=%s", hi, h.seed, profile)
+	}
 
 	switch profile {
 	case "directed":
